@@ -731,7 +731,8 @@ impl<'a> Exec<'a> {
 
     // ------------------------------------------------------------- llg_par_compute_mask (M-buf)
 
-    pub fn op_par_mask(&mut self, hs: &[SlotId], words: &[usize], is_async: bool) -> VResult<()> {
+    pub fn op_par_mask(&mut self, hs: &[SlotId], words: &[usize], is_async: bool, quirks: &[u8]) -> VResult<()> {
+        let quirk = |i: usize| quirks.get(i).copied().unwrap_or(0);
         let nv = self.ctx.n_vocab();
         let eos = self.ctx.world.eos() as usize;
         let exact = nv.div_ceil(32);
@@ -764,16 +765,33 @@ impl<'a> Exec<'a> {
         } else {
             &mut bufs
         };
-        let steps: Vec<LlgConstraintStep> = ptrs
-            .iter()
-            .zip(bufs.iter_mut())
-            .zip(words.iter())
-            .map(|((p, b), w)| LlgConstraintStep {
-                constraint: *p,
-                mask_dest: unsafe { b.as_mut_ptr().add(GUARD_WORDS) },
-                mask_byte_len: *w * 4,
-            })
-            .collect();
+        // destinations of the NULL-constraint steps: must stay untouched
+        let n_null = (0..hs.len()).filter(|i| quirk(*i) == 1).count();
+        let null_bufs: &mut Vec<Vec<u32>> = Box::leak(Box::new(vec![vec![FILL; exact + 2]; n_null]));
+        let mut steps: Vec<LlgConstraintStep> = vec![];
+        {
+            let mut ni = 0;
+            for (i, ((p, b), w)) in ptrs.iter().zip(bufs.iter_mut()).zip(words.iter()).enumerate() {
+                let q = quirk(i);
+                if q == 1 {
+                    steps.push(LlgConstraintStep {
+                        constraint: std::ptr::null_mut(),
+                        mask_dest: null_bufs[ni].as_mut_ptr(),
+                        mask_byte_len: (exact + 2) * 4,
+                    });
+                    ni += 1;
+                    self.stats.fault("par_step_null_constraint");
+                }
+                steps.push(LlgConstraintStep {
+                    constraint: *p,
+                    mask_dest: if q == 3 { std::ptr::null_mut() } else { unsafe { b.as_mut_ptr().add(GUARD_WORDS) } },
+                    mask_byte_len: if q == 2 { *w * 4 + 2 } else { *w * 4 },
+                });
+                if q == 2 || q == 3 {
+                    self.stats.fault("par_step_bad_parameters");
+                }
+            }
+        }
         let counter = Box::new(AtomicU32::new(0));
         let before: Vec<(bool, bool)> = hs
             .iter()
@@ -812,9 +830,42 @@ impl<'a> Exec<'a> {
         }
         // expected result per step: the constraint's own mask computed again (C11 makes this
         // the same mask), cross-checked against the Rust mirror by CStep/ChkMirror elsewhere
+        for nb in null_bufs.iter() {
+            if nb.iter().any(|x| *x != FILL) {
+                return Err(self.viol(
+                    "caller_buffer_contents",
+                    "null_step_buffer_written",
+                    "llg_par_compute_mask wrote into the destination of a step whose constraint is NULL".into(),
+                ));
+            }
+        }
         for (i, &h) in hs.iter().enumerate() {
             let w = words[i];
             let buf = &bufs[i];
+            if quirk(i) == 2 || quirk(i) == 3 {
+                // invalid step parameters: the error goes to that constraint, nothing is written
+                let (failed0, _) = before[i];
+                if buf[GUARD_WORDS..GUARD_WORDS + w].iter().any(|x| *x != FILL) || buf[..GUARD_WORDS].iter().any(|x| *x != CANARY) {
+                    return Err(self.viol(
+                        "caller_buffer_contents",
+                        "bad_step_buffer_written",
+                        format!("h{h}: step with invalid parameters but its destination was written"),
+                    ));
+                }
+                let err_now = self.ch(h).and_then(|c| c.has_error());
+                if err_now.is_none() && !failed0 {
+                    return Err(self.viol(
+                        "c_result",
+                        "bad_step_not_reported",
+                        format!("h{h}: step with invalid parameters (kind {}) but the constraint reports no error", quirk(i)),
+                    ));
+                }
+                let s = self.slots.get_mut(&h).unwrap();
+                if s.failed.is_none() {
+                    s.failed = err_now;
+                }
+                continue;
+            }
             for k in 0..GUARD_WORDS {
                 if buf[k] != CANARY || buf[buf.len() - 1 - k] != CANARY {
                     return Err(self.viol(
